@@ -6,7 +6,7 @@ WS5 = [" ", "\t", "\n", "\x0c", "\r"]
 NEAR_WS = ["\x0b", " ", " "]
 LOOKALIKE = {"K": "K", "k": "K", "e": "é", "a": "á", "s": "ß", "E": "É", "A": "Á"}
 EXTERN_SAMPLES = {"ext_ident": ["abc", "b", "xyz"], "ext_two": ["xy", "aé", "😀b"], "ext_num": ["12", "7", "4294967299"],
-                  "ext_cond": ["b", "d", " ", "2"], "ext_zero": [""]}
+                  "ext_cond": ["b", "d", " ", "2"], "ext_zero": [""], "ext_nested": ["abc", "q", "zz"]}
 
 
 class Sentences:
@@ -52,7 +52,7 @@ class Sentences:
             fn = fn[:-1] if fn.endswith("c") else fn
             if fn.startswith("probe_"):
                 return ""
-            return self.r.choice(EXTERN_SAMPLES[fn])
+            return self.r.choice(EXTERN_SAMPLES.get(fn, ['a']))
         if depth < -6:
             return ""
         return self.expr(r.body, not r.has("no_skip_ws"), depth)
